@@ -23,17 +23,28 @@ Definition dobs_eqb (a b : dobs) : bool :=
   beq (fst (fst a)) (fst (fst b)) && beq (snd (fst a)) (snd (fst b)) && option_eqb beq (snd a) (snd b).
 Definition robs_eqb (a b : robs) : bool := Z.eqb (fst a) (fst b) && Bool.eqb (snd a) (snd b).
 
-Definition model_obs (c : fcfg) (stream : bytes) : option (list dobs * list robs) :=
+(* the bool: responses may have been lost (outcome OEofBody: the writer is released unflushed; how many of the
+   last responses were still unflushed depends on how the input arrived, which the model does not represent) *)
+Definition model_obs (c : fcfg) (stream : bytes) : option (list dobs * list robs * bool) :=
   match serve_frames c stream with
   | (_, _, OBug) | (_, _, OFuel) => None              (* never equal to an implementation run *)
-  | (ds, rs, _) =>
+  | (ds, rs, o) =>
       Some (map (fun d => (dp_method d, dp_uri d, dp_body d)) ds,
-            map (fun r => (rs_status r, rs_close r)) rs)
+            map (fun r => (rs_status r, rs_close r)) rs,
+            match o with OEofBody => true | _ => false end)
   end.
 
-Definition obs_eqb (m : option (list dobs * list robs)) (o : obs) : bool :=
+Fixpoint is_prefix (a b : list robs) : bool :=
+  match a, b with
+  | [], _ => true
+  | x :: a', y :: b' => robs_eqb x y && is_prefix a' b'
+  | _ :: _, [] => false
+  end.
+
+Definition obs_eqb (m : option (list dobs * list robs * bool)) (o : obs) : bool :=
   match m, o with
-  | Some (ds, rs), Obs ds' rs' => list_eqb dobs_eqb ds ds' && list_eqb robs_eqb rs rs'
+  | Some (ds, rs, lossy), Obs ds' rs' =>
+      list_eqb dobs_eqb ds ds' && (if lossy then is_prefix rs' rs else list_eqb robs_eqb rs rs')
   | None, _ => false
   end.
 
